@@ -22,6 +22,10 @@ macro_rules! with_prop {
             "C10" => { let $p = &props::c10::C10; $body }
             "C11" => { let $p = &props::c11::C11; $body }
             "C12" => { let $p = &props::c12::C12; $body }
+            "C13" => { let $p = &props::c13::C13; $body }
+            "C15" => { let $p = &props::c15::C15; $body }
+            "C16" => { let $p = &props::c16::C16; $body }
+            "C17" => { let $p = &props::c17::C17; $body }
             _ => { eprintln!("unknown property {}", $id); std::process::exit(2); }
         }
     };
@@ -48,6 +52,9 @@ fn main() {
             let id = args[2].as_str();
             let code = with_prop!(id, p => engine::main_run(p, tier, seed, only));
             std::process::exit(code);
+        }
+        "c13-restart" => {
+            std::process::exit(props::c13_restart::child_main(&args[2..]));
         }
         "replay" => {
             let text = std::fs::read_to_string(&args[2]).unwrap_or_else(|e| {
